@@ -1407,6 +1407,20 @@ def c09_candidates(tier):
                               (64, T_int(8), "#[bits([0..=3, 60..=63, 33..=32], rw)]", [(0, 4), (60, 4)])]:
         L = Layout(W, [Field("f", ty, rs, None, "rw", raw_attr=attr)], tag=f"list with an empty reversed item: {attr} on u{W}")
         C.append((L, "reversed-empty-range-in-list"))
+    # numbers so large that the macro's own usize arithmetic wraps when it is built without overflow
+    # checks (the reference treats positions >= 128 as non-existent, so the stand-in ranges below only
+    # have to be "somewhere outside")
+    for W in (8, 32, 128, 24):
+        L = Layout(W, [Field("f", T_bool(), [(200, 1)], None, "rw", raw_attr="#[bit(18446744073709551615, rw)]")], tag=f"bool at bit 2^64-1 of u{W}")
+        C.append((L, "huge-bit-position"))
+        L = Layout(W, [Field("f", T_uint(8), [(200, 8)], None, "rw", raw_attr="#[bits(18446744073709551608..=18446744073709551615, rw)]")], tag=f"u8 ending at bit 2^64-1 of u{W}")
+        C.append((L, "huge-bit-position"))
+        L = Layout(W, [Field("f", T_bool(), [(0, 1)], (3, 200, True), "rw", raw_attr="#[bit(0, rw, stride = 9223372036854775808)]")], tag=f"[bool;3] with stride 2^63 on u{W}")
+        C.append((L, "huge-stride-wraps"))
+        L = Layout(W, [Field("f", T_uint(4), [(0, 4)], (5, 200, True), "rw", raw_attr="#[bits(0..=3, rw, stride = 4611686018427387904)]")], tag=f"[u4;5] with stride 2^62 on u{W}")
+        C.append((L, "huge-stride-wraps"))
+        L = Layout(W, [Field("f", T_uint(2), [(0, 1), (2, 1)], (3, 200, True), "rw", raw_attr="#[bits([0, 2], rw, stride = 9223372036854775808)]")], tag=f"array of lists with stride 2^63 on u{W}")
+        C.append((L, "huge-stride-wraps"))
     # 5. degenerate arrays
     for W in (8, 32):
         L = Layout(W, [Field("f", T_uint(4), [(0, 4)], (1, 4, False), "rw")], tag=f"[u4;1] on u{W}")
